@@ -213,7 +213,41 @@ def wl_many(rng):
            "dd.vals 0", "dd.vals %d" % (nsub // 2), "dd.vals %d" % (nsub - 1)]
     return ls, "many"
 
-FAMILIES = [(wl_roundtrip, 5), (wl_compressed, 4), (wl_reencode, 2), (wl_dump, 3), (wl_strings, 3), (wl_doubles, 4), (wl_many, 1)]
+def wl_first64(rng):
+    """the first element the process ever handles is 64 bits wide (statics filled on first use must not care)"""
+    el = rng.choice([4001, 4002, 4003, 4004, 4005])      # numeric elements: 2 01 does not widen code and flag tables
+    B, D = P["cur"]
+    add = 64 - B[el][2]
+    t = [201000 + 128 + add, el, 201000] + ([rng.choice([12101, 10004])] if rng.random() < 0.5 else [])
+    nsub = rng.choice([1, 2])
+    ls = ["T.use cur", "tm.new 4 " + " ".join("%06d" % d for d in t)]
+    for k in range(nsub):
+        ls += ["ss.new", "ss.setraw %d 1 %d" % (k, rng.choice([0, 0, 1, 5, 2 ** 40]))]
+    for k in range(nsub):
+        ls += ["ss.list %d" % k, "ss.vals %d" % k]
+    ls += ["ds.invalid", "ds.encode 0", "ds.decodelast 1 0 0"] + _decode_tail(nsub)
+    return ls, "first64"
+
+def wl_samples(rng):
+    """the repository's own sample messages (Test/BUFR): data present bit-maps, 2 06/2 07, local tables … — decoded by the
+    implementation only (several use operators outside the model): the tie is not made, the settings are compared"""
+    files = sample_files()
+    if not files:
+        return wl_roundtrip(rng)
+    return sample_workload(rng, rng.choice(files))
+
+def sample_files():
+    import glob
+    return sorted(f for f in glob.glob(os.path.join(tables.REPO, "Test/BUFR/*.bufr")) if os.path.getsize(f) <= 9000)
+
+def sample_workload(rng, f):
+    hx = open(f, "rb").read().hex()
+    ls = ["T.use " + rng.choice(["cur", "cur", "loc"]), "ds.decodemsg " + hx]
+    for k in range(rng.choice([1, 2, 3])):
+        ls += ["dd.list %d" % k, "dd.vals %d" % k]
+    return ls, "samples"
+
+FAMILIES = [(wl_first64, 1), (wl_roundtrip, 5), (wl_compressed, 4), (wl_reencode, 2), (wl_dump, 3), (wl_strings, 3), (wl_doubles, 4), (wl_many, 1)]
 
 def gen_workloads(rng, n):
     fams = [f for f, w in FAMILIES for _ in range(w)]
@@ -236,6 +270,8 @@ def usable(lines, outs, crash):
     if any(l == "ds.invalid" and o != "0" for l, o in zip(lines, outs)):
         return False
     if any(l.startswith("ds.decodelast") and o.split()[:2] != ["ok", "0"] for l, o in zip(lines, outs)):
+        return False
+    if any(l.startswith("ds.decodemsg") and o.split()[-3:-1] != ["ok", "0"] for l, o in zip(lines, outs)):
         return False
     return True
 
@@ -266,7 +302,8 @@ def config_scenario(rng, i, lines, fam, tier):
     ls = []
     for j, c in enumerate(cfgs):
         ls += block(rng, lines, c, j == 0)
-    return Scenario("cfg-%d-%s" % (i, fam), ls, {"kind": "config", "family": fam, "blocklen": len(lines) + 8, "ncfg": len(cfgs)})
+    return Scenario("cfg-%d-%s" % (i, fam), ls, {"kind": "config", "family": fam, "blocklen": len(lines) + 8, "ncfg": len(cfgs),
+                                                 "nomodel": fam == "samples"})
 
 # ----------------------------------------------------------------------------- stream B: histories
 
@@ -464,12 +501,15 @@ def scenarios(rng, tier, runner):
     nE = 30 if tier == "quick" else 1000
     # stage 1: the workloads, filtered under the default settings
     wl = gen_workloads(rng, int((nA + 3 * nB) * 1.15))
+    wl += [sample_workload(rng, f) for f in sample_files()]      # every sample message of the repository once
     s1 = [Scenario("w-%d" % i, [l.replace("ds.dump s T", "ds.dump s 1") for l in ls]) for i, (ls, fam) in enumerate(wl)]
     r1 = run_all(runner, s1, "impl")
     good = [w for w, s, (o, crash) in zip(wl, s1, r1) if usable(s.lines, o, crash)]
     COUNTS["generated"], COUNTS["usable"] = len(wl), len(good)
     out = []
-    for i, (ls, fam) in enumerate(good[:nA]):
+    samples = [w for w in good if w[1] == "samples"]
+    good = [w for w in good if w[1] != "samples"]
+    for i, (ls, fam) in enumerate(good[:nA] + samples):
         out.append(config_scenario(rng, i, ls, fam, tier))
     # histories
     rest = good[nA:]
@@ -513,6 +553,8 @@ def two_pass(scn, c_out):
     """the model runs the first block of a configuration scenario (one block is enough: its functions take no
     switch); everything else runs whole.  `ds.decodelast` is given the bytes the implementation produced."""
     lines = list(scn.lines)
+    if scn.meta.get("nomodel"):
+        return ["reset"]
     if scn.meta.get("kind") == "config":
         bl = scn.meta["blocklen"]
         return c01.two_pass(Scenario(scn.name, lines[:bl]), c_out[:bl])
@@ -534,6 +576,8 @@ def compare(scn, lscn, cr, lr):
         return ("impl-crash", k, None, None, c_crash)
     if kind == "length" and not scn.meta.get("model"):
         return None
+    if scn.meta.get("nomodel"):
+        return None          # sample messages outside the model: the oracle compares the settings
     if l_crash:
         return ("model-crash", -1, None, None, l_crash)
     if kind == "config":
